@@ -2,25 +2,31 @@
 
     Transcription of compiler/parser/types.go ([Frugal.validate] and everything it calls:
     the name-conflict loops, validateNamespaces, validateIncludes, validateConstants /
-    validateConstant, validateTypedefs with the circular-typedef marking loop,
+    validateConstant / findIdentifier, validateTypedefs with the circular-typedef marking loop,
     validateStructLike, validateServices = validateServiceTypes + validateServiceExtends +
-    Service.validate, validateScopes) and of compiler/parser/parser.go ([parseFrugal]: name
-    derivation, circular-include detection by cleaned path, include resolution, validation after
-    the includes) over the parse-tree types of Model/ParserAst.v (C10's [frugal] record).
+    Service.validate, validateScopes, and the last pass validateValues = validateValue +
+    validateDefaults with underlyingScopedType (audit.go), valueKind, describeValue, findEnum,
+    findStructLike) and of compiler/parser/parser.go ([parseFrugal]: name derivation,
+    circular-include detection by cleaned path, the duplicate-file-name check, include resolution,
+    validation after the includes) over the parse-tree types of Model/ParserAst.v (C10's [frugal]
+    record).
 
     Every function returns the EXACT text of the Go error (byte for byte; the judge compares
     it with what the real code returned), a panic, or fuel exhaustion.  The loops that have no
     syntactic bound in Go (the marking loop [for progress], the extends walk, UnderlyingType,
-    the include recursion) take fuel; Proofs/CompilerValidateProofs.v shows the stated bounds
-    are always enough.
+    underlyingScopedType, the include recursion) take fuel; Proofs/CompilerValidateProofs.v shows
+    the stated bounds are always enough.
 
     The type-level questions (isValidType, the marking pass, UnderlyingType) are asked of the
     REDUCED file [reduce f incs] of Model/CompilerTotal.v, so that the theorems about typedef
-    resolution proved there apply to what this validation accepts.
+    resolution proved there apply to what this validation accepts.  The value pass reads enums,
+    struct fields and constants, which the reduced file does not have: it works on the parse trees
+    ([vscope] = a file with its ParsedIncludes) and Proofs relate its typedef walk to UnderlyingType.
 
     Assumed (guaranteed by the grammar, checked by the judge on every observed tree): strings
-    are ASCII; Type pointers of constants, typedefs, fields and operations are not nil.
-    Executable definitions only. *)
+    are ASCII; Type pointers of constants, typedefs, fields and operations are not nil.  Paths of
+    a program do not climb above the directory of the root file; file identity is the cleaned
+    path (no symbolic links).  Executable definitions only. *)
 From Coq Require Import String ZArith List Bool.
 From FV Require Import Base.Res Model.ParserStrings Model.ParserAst Model.Parser Model.ParserFsys.
 From FV Require Model.CompilerTotal.
